@@ -31,6 +31,7 @@ import (
 	clienttesting "k8s.io/client-go/testing"
 	"k8s.io/client-go/tools/cache"
 	"k8s.io/client-go/util/retry"
+	"k8s.io/client-go/util/workqueue"
 	"k8s.io/klog/v2"
 
 	"github.com/go-logr/logr"
@@ -285,6 +286,10 @@ func (r *rig) buildController() {
 		pvcInformerWrap{r.pvcInf, r},
 		r.revInf,
 		r.kube, r.pc)
+	// same kind of queue, but with a rate limiter that does not make the harness wait: the controller's
+	// default combines a 5ms..1000s exponential per-item backoff with a 10 qps bucket shared by all items
+	r.ctrl.VerifQueue().ShutDown()
+	r.ctrl.VerifSetQueue(workqueue.NewNamedRateLimitingQueue(workqueue.NewItemExponentialFailureRateLimiter(time.Nanosecond, time.Microsecond), "statefulset"))
 	poolMu.Lock()
 	RigsBuilt++
 	poolMu.Unlock()
